@@ -284,7 +284,12 @@ func C06(tier string) {
 			if cr.Status != "ok" {
 				data, _ := os.ReadFile(cr.LogFile)
 				if cr.Status == "panic" {
-					run.Violation("analyzer-panic:"+p.Name, "analysis crashed: "+tailStr(string(data), 3000), map[string]string{"log.txt": tailStr(string(data), 20000)})
+					// a crash is identified by where it happens, as in C01/C03 (the known on-demand backtrace crash of
+					// the pinned tree can hit any generated program)
+					sig := "analyzer-panic:" + crashSignature(string(data))
+					if !run.IsKnown(sig) {
+						run.Violation(sig, p.Name+": analysis crashed: "+tailStr(string(data), 3000), map[string]string{"log.txt": tailStr(string(data), 20000)})
+					}
 				} else {
 					run.Inconclusive(p.Name + ": worker " + cr.Status)
 				}
